@@ -10,6 +10,145 @@ D = 'BloscCompressor.decompress'
 C = 'BloscCompressor.compress'
 
 
+def _at_least_one(e, known):
+    """Is the integer expression >= 1 for every value of its variables?  `known` lists expression texts known to be >= 1 on this path.
+    Forms: a literal >= 1; max(..) with such a member; a conditional expression whose arms are each >= 1 given its test
+    (X if X > 0 else 1,  1 if X < 1 else X, ...)."""
+    if isinstance(e, ast.Constant):
+        return type(e.value) is int and e.value >= 1
+    if unparse(e) in known:
+        return True
+    if isinstance(e, ast.Call) and dotted(e.func) == 'max' and not e.keywords and len(e.args) >= 2:
+        return any(_at_least_one(a, known) for a in e.args)
+    if isinstance(e, ast.Call) and dotted(e.func) in ('int', 'np.int64') and len(e.args) == 1 and not e.keywords:
+        return _at_least_one(e.args[0], known)
+    if isinstance(e, ast.IfExp):
+        t = e.test
+        yes, no = [], []
+        if isinstance(t, ast.Compare) and len(t.ops) == 1:
+            op, a, b = t.ops[0], t.left, t.comparators[0]
+            ca = a.value if isinstance(a, ast.Constant) and type(a.value) is int else None
+            cb = b.value if isinstance(b, ast.Constant) and type(b.value) is int else None
+            # A > c (c >= 0), A >= c (c >= 1): A >= 1 in the true arm;  A < c (c <= 1), A <= c (c <= 0): A >= 1 in the false arm
+            if cb is not None:
+                if (isinstance(op, ast.Gt) and cb >= 0) or (isinstance(op, ast.GtE) and cb >= 1):
+                    yes.append(unparse(a))
+                if (isinstance(op, ast.Lt) and cb <= 1) or (isinstance(op, ast.LtE) and cb <= 0):
+                    no.append(unparse(a))
+            if ca is not None:
+                if (isinstance(op, ast.Lt) and ca >= 0) or (isinstance(op, ast.LtE) and ca >= 1):
+                    yes.append(unparse(b))
+                if (isinstance(op, ast.Gt) and ca <= 1) or (isinstance(op, ast.GtE) and ca <= 0):
+                    no.append(unparse(b))
+        return _at_least_one(e.body, known + yes) and _at_least_one(e.orelse, known + no)
+    return False
+
+
+def _only_sym(l):
+    """The symbol s if the linear form is exactly 1*s, else None."""
+    t = getattr(l, 't', None)
+    if t is not None and getattr(l, 'c', 0) == 0 and len(t) == 1 and list(t.values())[0] == 1:
+        return list(t.keys())[0]
+    return None
+
+
+def _buffer_trace(copy, dcs):
+    """Symbolic run of the statement list that holds the buffer copy, up to the `if` that decompresses the buffered frame.
+    Returns dict(copy=(lo, hi, m, _pos, _size, len(block)) at the copy, test=(left-right of the == test, _pos, _size) at the test,
+    mins={symbol: [argument forms]})."""
+    from ..core.lin import Lin
+    blk = getattr(copy._parent, 'body', None)
+    if blk is None or copy not in blk:
+        return None
+    env, mins, cnt = {}, {}, [0]
+    out = dict(copy=None, test=None, mins=mins)
+
+    def fresh(tag):
+        cnt[0] += 1
+        return Lin.sym(f'{tag}#{cnt[0]}')
+
+    def get(name):
+        return env.get(name, Lin.sym(name))
+
+    def ev(e):
+        if isinstance(e, ast.Constant) and type(e.value) is int:
+            return Lin.const(e.value)
+        if isinstance(e, ast.Name):
+            return get(e.id)
+        if isinstance(e, ast.Call) and dotted(e.func) == 'len' and len(e.args) == 1 and isinstance(e.args[0], ast.Name) and not e.keywords:
+            return get(f'len({e.args[0].id})')
+        if isinstance(e, ast.Call) and dotted(e.func) == 'min' and len(e.args) == 2 and not e.keywords:
+            a = [ev(x) for x in e.args]
+            if None in a:
+                return None
+            if a[0] == a[1]:
+                return a[0]
+            r = fresh('min')
+            mins[_only_sym(r)] = a
+            return r
+        if isinstance(e, ast.BinOp) and isinstance(e.op, (ast.Add, ast.Sub)):
+            a, b = ev(e.left), ev(e.right)
+            if a is None or b is None:
+                return None
+            return a + b if isinstance(e.op, ast.Add) else a - b
+        if isinstance(e, ast.UnaryOp) and isinstance(e.op, ast.USub):
+            a = ev(e.operand)
+            return a.scale(-1) if a is not None else None
+        return None
+
+    def assign(name, val_node):
+        if name == 'block' and isinstance(val_node, ast.Subscript) and unparse(val_node.value) == 'block' and isinstance(val_node.slice, ast.Slice) \
+                and val_node.slice.upper is None and val_node.slice.lower is not None and val_node.slice.step is None:
+            n_ = ev(val_node.slice.lower)
+            env['len(block)'] = get('len(block)') - n_ if n_ is not None else fresh('len')
+            return
+        v = ev(val_node)
+        env[name] = v if v is not None else fresh(name)
+        if name == 'block':
+            env['len(block)'] = fresh('len')
+
+    def run(stmts):
+        for st in stmts:
+            if isinstance(st, ast.Assign) and len(st.targets) == 1 and isinstance(st.targets[0], ast.Name):
+                assign(st.targets[0].id, st.value)
+            elif isinstance(st, ast.AugAssign) and isinstance(st.target, ast.Name) and isinstance(st.op, (ast.Add, ast.Sub)):
+                v = ev(st.value)
+                cur = get(st.target.id)
+                env[st.target.id] = (cur + v if isinstance(st.op, ast.Add) else cur - v) if v is not None else fresh(st.target.id)
+            elif st is copy:
+                sl = st.targets[0].slice
+                lo = hi = mv = None
+                if isinstance(sl, ast.Slice) and sl.step is None and sl.lower is not None and sl.upper is not None:
+                    lo, hi = ev(sl.lower), ev(sl.upper)
+                pre = [x for x in ast.walk(st.value) if isinstance(x, ast.Subscript) and unparse(x.value) == 'block' and isinstance(x.slice, ast.Slice)
+                       and x.slice.lower is None and x.slice.upper is not None and x.slice.step is None]
+                if len(pre) == 1:
+                    mv = ev(pre[0].slice.upper)
+                out['copy'] = (lo, hi, mv, get('_pos'), get('_size'), get('len(block)'))
+            elif isinstance(st, ast.If):
+                if any(d in list(ast.walk(st)) for d in dcs if '_buffer' in unparse(d.value.args[0])):
+                    t = st.test
+                    diff = None
+                    if isinstance(t, ast.Compare) and len(t.ops) == 1 and isinstance(t.ops[0], ast.Eq):
+                        a, b = ev(t.left), ev(t.comparators[0])
+                        diff = a - b if a is not None and b is not None else None
+                    out['test'] = (diff, get('_pos'), get('_size'))
+                    return True
+                # a conditional before the copy (buffer creation): names bound in it have an unknown common value afterwards
+                for nm in stores_in(st):
+                    env[nm] = fresh(nm)
+                    if nm == 'block':
+                        env['len(block)'] = fresh('len')
+            elif isinstance(st, (ast.Expr, ast.Pass)):
+                pass
+            else:
+                for nm in stores_in(st):
+                    env[nm] = fresh(nm)
+        return False
+    run(blk)
+    return out
+
+
 def run(chk):
     src = chk.src
     dfn, cfn = src.func(AS, D), src.func(AS, C)
@@ -167,22 +306,29 @@ def run(chk):
                   node=d)
     # ---- S4
     copy = [n for n in walk_no_nested(W) if isinstance(n, ast.Assign) and isinstance(n.targets[0], ast.Subscript) and unparse(n.targets[0].value) == '_buffer']
-    ok4 = len(copy) == 1
+    # The buffered branch is executed symbolically as straight-line integer code (values are linear forms over the values at the
+    # entry of the branch; min(a, b) is an uninterpreted symbol that remembers its arguments), so that the cursor rules are
+    # decided on values, not on the spelling of the statements.
+    tr = _buffer_trace(copy[0], dcs) if len(copy) == 1 else None
+    ok4 = tr is not None and tr['copy'] is not None
     m = None
     if ok4:
-        sl = copy[0].targets[0].slice
-        ok4 = isinstance(sl, ast.Slice) and unparse(sl.lower) == '_pos' and isinstance(sl.upper, ast.BinOp) and unparse(sl.upper.left) == '_pos'
-        m = unparse(sl.upper.right) if ok4 else None
-        ok4 = ok4 and f'block[:{m}]' in unparse(copy[0].value)
+        lo, hi, mv, pos_c, size_c, lenb_c = tr['copy']
+        m = hi - lo if hi is not None and lo is not None else None
+        ok4 = lo is not None and m is not None and mv is not None and lo == pos_c and m == mv
     chk.check(ok4, 'C14-S4', AS, D, 'buffer copy _buffer[_pos:_pos+m] = block[:m]', f'm = {m}', 'the buffered copy does not place block[:m] at [_pos:_pos+m]', node=copy[0] if copy else W)
-    mdef = [n for n in walk_no_nested(W) if isinstance(n, ast.Assign) and unparse(n.targets[0]) == (m or '?')]
-    okm = len(mdef) == 1 and isinstance(mdef[0].value, ast.Call) and dotted(mdef[0].value.func) == 'min' and \
-        sorted(unparse(a) for a in mdef[0].value.args) == sorted(['_size - _pos', 'len(block)'])
-    chk.check(okm, 'C14-S4', AS, D, 'm = min(_size - _pos, len(block))', '', f'm is {unparse(mdef[0].value) if mdef else None}: the copy can run past the frame or past the chunk', node=mdef[0] if mdef else W)
-    adv = [n for n in walk_no_nested(W) if isinstance(n, ast.AugAssign) and unparse(n.target) == '_pos']
-    okadv = len(adv) == 1 and unparse(adv[0].value) == (m or '?') and isinstance(adv[0].op, ast.Add)
-    comp = [n for n in walk_no_nested(W) if isinstance(n, ast.If) and unparse(n.test) in ('_pos == _size', '_size == _pos')]
-    okcomp = len(comp) == 1 and any(d in list(ast.walk(comp[0])) for d in dcs if '_buffer' in unparse(d.value.args[0]))
+    okm = False
+    mtxt = None
+    if ok4:
+        args = tr['mins'].get(_only_sym(m))
+        mtxt = [str(a) for a in args] if args else str(m)
+        okm = args is not None and len(args) == 2 and ((args[0] == size_c - pos_c and args[1] == lenb_c) or (args[1] == size_c - pos_c and args[0] == lenb_c))
+    chk.check(okm, 'C14-S4', AS, D, 'm = min(_size - _pos, len(block))', '', f'm is {mtxt}: the copy can run past the frame or past the chunk', node=copy[0] if copy else W)
+    okadv = okcomp = False
+    if ok4 and tr['test'] is not None:
+        diff, pos_t, size_t = tr['test']
+        okadv = pos_t == pos_c + m and size_t == size_c
+        okcomp = diff is not None and (diff == pos_t - size_t or diff == size_t - pos_t)
     chk.check(okadv and okcomp, 'C14-S4', AS, D, '_pos += m; frame complete iff _pos == _size', '', f'cursor advance ok={okadv}, completion test ok={okcomp}', node=W)
     mk = [n for n in walk_no_nested(W) if isinstance(n, ast.Assign) and unparse(n.targets[0]) == '_buffer' and isinstance(n.value, ast.Call)]
     okmk = len(mk) == 1 and unparse(mk[0].value.args[0]) == '_size'
@@ -203,30 +349,38 @@ def run(chk):
               f'parser state initialisation {dict((k, init.get(k)) for k in state)} / kept on self: {selfst}: a second stream would start mid-frame', node=dfn)
     # ---- S6
     loops = [n for n in walk_no_nested(cfn) if isinstance(n, ast.For)]
-    ok6 = len(loops) == 1 and isinstance(loops[0].iter, ast.Call) and dotted(loops[0].iter.func) == 'range' and len(loops[0].iter.args) == 3
+    from ..core.srcmodel import single_defs, expand_names
+    cdefs = single_defs(cfn)
+    ok6 = len(loops) == 1
     step = None
     if ok6:
-        a = loops[0].iter.args
-        step = unparse(a[2])
-        ok6 = unparse(a[0]) == '0' and unparse(a[1]) == 'len(data)'
-        i = loops[0].target.id
+        # the frames are cut either in the loop header (for i in range(0, len(data), step): ... data[i:i+step]) or by a generator /
+        # list of slices that the loop walks (for piece in (data[i:i+step] for i in range(0, len(data), step)): ... piece)
+        it = loops[0].iter
+        if isinstance(it, ast.Name) and it.id in cdefs:
+            it = cdefs[it.id]
         cc = [n for n in ast.walk(loops[0]) if isinstance(n, ast.Call) and dotted(n.func) == 'blosc.compress']
-        ok6 = ok6 and len(cc) == 1 and unparse(cc[0].args[0]) == f'data[{i}:{i} + {step}]'
+        rng, cut = None, None
+        if isinstance(it, ast.Call) and dotted(it.func) == 'range' and isinstance(loops[0].target, ast.Name) and len(cc) == 1 and cc[0].args:
+            rng, ivar, cut = it, loops[0].target.id, cc[0].args[0]
+        elif isinstance(it, (ast.GeneratorExp, ast.ListComp)) and len(it.generators) == 1 and not it.generators[0].ifs and isinstance(it.generators[0].target, ast.Name) \
+                and isinstance(it.generators[0].iter, ast.Call) and dotted(it.generators[0].iter.func) == 'range' and isinstance(loops[0].target, ast.Name) \
+                and len(cc) == 1 and cc[0].args and unparse(cc[0].args[0]) == loops[0].target.id:
+            rng, ivar, cut = it.generators[0].iter, it.generators[0].target.id, it.elt
+        ok6 = rng is not None and len(rng.args) == 3 and not rng.keywords
+        if ok6:
+            a = rng.args
+            step = unparse(a[2])
+            ok6 = unparse(a[0]) == '0' and unparse(a[1]) == 'len(data)' and unparse(cut) == f'data[{ivar}:{ivar} + {step}]'
     chk.check(ok6, 'C14-S6', AS, C, 'frames data[i:i+nelem], i = 0, nelem, ... tile the data', f'step {step}', 'writer frames do not tile the input', node=loops[0] if loops else cfn)
     # the frame length is at least one item for every block size (a step of 0 makes range() raise before anything is written)
     if ok6:
         sd = [n for n in walk_no_nested(cfn) if isinstance(n, ast.Assign) and len(n.targets) == 1 and unparse(n.targets[0]) == step]
         v = sd[-1].value if sd else None
-        pos = False
         why = f'{step} = {unparse(v) if v is not None else None}'
-        if isinstance(v, ast.Call) and dotted(v.func) == 'max' and len(v.args) == 2:
-            cs = [a for a in v.args if isinstance(a, ast.Constant) and isinstance(a.value, int) and a.value >= 1]
-            pos = bool(cs)
-        elif isinstance(v, ast.Constant) and isinstance(v.value, int) and v.value >= 1:
-            pos = True
-        elif v is not None:
+        pos = v is not None and _at_least_one(expand_names(v, {k: d for k, d in cdefs.items() if k != step}), [])
+        if v is not None and not pos:
             # x // y + 1, (x + y - 1) // y with a guard ... : only the explicit forms are recognised; a bare floor division can be 0
-            txt = unparse(v).replace(' ', '')
             guards = [n for n in walk_no_nested(cfn) if isinstance(n, (ast.If, ast.Assert)) and step in unparse(n.test) and n.lineno > sd[-1].lineno
                       and n.lineno < loops[0].lineno]
             for g in guards:
